@@ -3,8 +3,8 @@
 package c17
 
 import (
-	"io"
 	"fmt"
+	"io"
 
 	"go.uber.org/zap"
 	"go.uber.org/zap/verif/internal/ev"
